@@ -1,9 +1,11 @@
 """C04 -- sector allocation is sound.  DESIGN.md section 8.4."""
 from harness import common, pyspec, sysimg, sysprops
-from harness.props import packleaf, celeaf
+from harness.props import packleaf, celeaf, accountleaf
 
 MODULE = 'C04'
-THEOREMS = ['C04_bump_disjoint', 'C04_bump_inside', 'C04_ceiling_div_covers', 'C04_dir_blocks_cover_records', 'C04_ce_blocks_inv', 'C04_ce_entry_placed', 'C04_ce_gap_offbyone_refuted', 'C04_ptr_extents_cover', 'C04_nonvacuous']
+THEOREMS = ['C04_bump_disjoint', 'C04_bump_inside', 'C04_ceiling_div_covers', 'C04_dir_blocks_cover_records', 'C04_ce_blocks_inv', 'C04_ce_entry_placed', 'C04_ce_gap_offbyone_refuted', 'C04_ptr_extents_cover', 'C04_nonvacuous',
+            'C04_declared_size_is_exact', 'C04_objects_disjoint_and_inside', 'C04_account_invariant',
+            'C04_refused_edit_changes_nothing', 'C04_account_nonvacuous']
 RECIPES = ['exact_fill', 'exact_fill_plus', 'ptable_boundary', 'ptable_boundary_dup_late', 'ce_gap_plus', 'ce_gap_exact',
            'ce_gap_minus', 'big_records', 'deep_tree', 'udf_fid_cross']
 
@@ -32,6 +34,7 @@ def run(ctx):
     common.setup_impl_path()
     packleaf.leaf_correspondence(ctx)
     celeaf.leaf_correspondence(ctx)
+    accountleaf.correspondence(ctx)
     quick = ctx.tier == 'quick'
     sysprops.run_oracle(ctx, 'C04', sysprops.histories(ctx, 150 if quick else 2500, RECIPES,
                                                        dict(allow_refusals=False, fat_dir=0.3, long_rr=0.12, link_bias=0.15),
@@ -42,7 +45,8 @@ def run(ctx):
                        'independent reader pairwise disjoint, inside the declared volume, image length exact, write log of the '
                        'mastering run free of double writes, data extents shared iff linked; non-trivial = >= 3 edit kinds or a recipe')
     ctx.cov['trusted_base'] = ['Coq 8.16.1 kernel, vm_compute', 'Model/Pack.v, Model/CeAlloc.v, Model/Alloc.v (hand models) tied by '
-                               'exhaustive leaf runs against dr.py / rockridge.py', 'translator (ceiling_div, add_to_ptr_size, '
+                               'exhaustive leaf runs against dr.py / rockridge.py', 'Model/Account.v (hand model of the per-edit space accounting of the plain '
+                               'ISO9660 core; one name per content, files <= 0xfffff800 bytes, level 3) tied by per-operation comparison with the library', 'translator (ceiling_div, add_to_ptr_size, '
                                'remove_from_ptr_size)', 'harness/reader.py segment map; recording output sink']
     ctx.assumptions = ['the traversal order of _reshuffle_extents is not modelled: disjointness is proved for ANY order of a bump '
                        'allocation and checked on the decoded objects of real images']
